@@ -774,7 +774,7 @@ func (dr *dirRepo) gcHeld() error {
 	defer dr.mu.Unlock()
 	dr.log.Debug("starting GC", "repo", dr.name)
 	// attempt to remove an empty upload folder, ignore errors (e.g. uploads managed by another tool)
-	if dr.uploads.IsEmpty() {
+	if dr.exists && dr.uploads.IsEmpty() {
 		fi, err := os.Stat(filepath.Join(dr.path, uploadDir))
 		if err == nil && fi.IsDir() {
 			_ = os.Remove(filepath.Join(dr.path, uploadDir))
@@ -799,7 +799,8 @@ func (dr *dirRepo) gcHeld() error {
 		return nil
 	}()
 	// prune an empty repo dir and mark the repo as empty if successful
-	if *dr.conf.Storage.GC.EmptyRepo && len(dr.index.Manifests) == 0 && dr.uploads.IsEmpty() {
+	// a directory that is not a repo, or a repo with an index that cannot be loaded, has not been emptied and is left alone
+	if errGC == nil && dr.exists && *dr.conf.Storage.GC.EmptyRepo && len(dr.index.Manifests) == 0 && dr.uploads.IsEmpty() {
 		layoutRemoved := false
 		errDir := func() error {
 			rmList := []string{filepath.Join(dr.path, uploadDir)}
